@@ -256,7 +256,11 @@ func resolveCatalogRefs(c *catalog.Catalog, rvs []*ast.RangeVar, args []paramRef
 						}
 					}
 					if paramType == nil {
-						panic(fmt.Sprintf("named argument %s has no type", paramName))
+						return nil, &sqlerr.Error{
+							Code:     "42883",
+							Message:  fmt.Sprintf("function %s has no argument named %q", fun.Name, paramName),
+							Location: n.Pos(),
+						}
 					}
 				}
 				if paramName == "" {
